@@ -322,15 +322,17 @@ func (s *Sorts) oldHeapAxiom(comp, oldName string) string {
 	}
 	var val, binders, pat string
 	if m.Dom {
+		// the nil map has no keys (reads of a nil map find nothing); nil is reference 0 of the immutable old heap
+		nilax := fmt.Sprintf("(assert (= (select %s 0) ((as const (Array %s Bool)) false)))\n", oldName, m.Nest)
 		refs := s.refExprs(m.T, "k!o", 0)
 		if len(refs) == 0 {
-			return ""
+			return nilax
 		}
 		var cs []string
 		for _, r := range refs {
 			cs = append(cs, fmt.Sprintf("(<= %s epoch)", r))
 		}
-		return fmt.Sprintf("(assert (forall ((r!o Int) (k!o %s)) (! (=> (and (<= r!o epoch) (select (select %s r!o) k!o)) (and %s)) :pattern ((select (select %s r!o) k!o)))))\n", m.Nest, oldName, strings.Join(cs, " "), oldName)
+		return nilax + fmt.Sprintf("(assert (forall ((r!o Int) (k!o %s)) (! (=> (and (<= r!o epoch) (select (select %s r!o) k!o)) (and %s)) :pattern ((select (select %s r!o) k!o)))))\n", m.Nest, oldName, strings.Join(cs, " "), oldName)
 	}
 	if m.Nest == "" {
 		val = fmt.Sprintf("(select %s r!o)", oldName)
